@@ -765,6 +765,11 @@ func runC13(x *X) {
 		passes := 1 + c.Choose(2)
 		c13Run(x, c, shape, 1, passes, false)
 	})
+	// cells are values: callbacks registered on a Cell before it is copied into rows are inherited by
+	// every copy; callbacks registered on one live copy afterwards belong to that copy alone.
+	x.Explore("cell-copies", ExploreOpts{ShardDepth: 2, Bound: "0..3 callbacks on a template cell; the cell stored twice (two rows | same row); <=3 further registrations each on either live copy; 1-2 passes"}, func(c *Chooser) {
+		c13CellCopies(x, c)
+	})
 	pairShapes := []c13Shape{{1, []int{1}}, {2, []int{2, -1}}, {-1, []int{2, 1}}, {1, []int{0, 2}}, {2, []int{2, 2}}, {-1, []int{1}}, {1, []int{-1, 1}}, {2, nil}, {1, []int{2}}, {-1, []int{-1, 2}}, {2, []int{1, 0}}, {1, []int{1, 1}}}
 	if x.Thorough() {
 		pairShapes = shapes
@@ -773,4 +778,111 @@ func runC13(x *X) {
 		shape := pairShapes[c.Choose(len(pairShapes))]
 		c13Run(x, c, shape, 2, 1, true)
 	})
+}
+
+type c13CopyRec struct {
+	name string
+	log  *[]string
+	w    map[*tabular.Cell]string
+}
+
+func (r *c13CopyRec) UpdateProperties(po tabular.PropertyOwner) error {
+	cell, ok := po.(*tabular.Cell)
+	who := "?"
+	if ok {
+		if n, known := r.w[cell]; known {
+			who = n
+		}
+	}
+	*r.log = append(*r.log, r.name+"@"+who)
+	return nil
+}
+
+func c13CellCopies(x *X, c *Chooser) {
+	t := tabular.New()
+	var log []string
+	who := map[*tabular.Cell]string{}
+	k0 := c.Choose(4)
+	sameRow := c.Bool()
+	tmpl := tabular.NewCell("tmpl")
+	expect := map[string]int{}
+	for i := 0; i < k0; i++ {
+		name := fmt.Sprintf("base%d", i)
+		c.Logf("t.RegisterPropertyCallback(&tmpl, RENDER, ITSELF, %s)   // before the cell is stored anywhere", name)
+		if err := registerCB(t, &tmpl, 2, 0, &c13CopyRec{name, &log, who}); err != nil {
+			x.Fail("C13.refused", []string{"cell_copies"}, "registering on a cell value was refused: %v", err)
+		}
+		expect[name+"@A"] = 1
+		expect[name+"@B"] = 1
+	}
+	var a, b *tabular.Cell
+	if sameRow {
+		c.Logf("r := NewRow().Add(tmpl).Add(tmpl); t.AddRow(r)")
+		r := tabular.NewRow().Add(tmpl).Add(tmpl)
+		t.AddRow(r)
+		a, _ = t.CellAt(tabular.CellLocation{Row: 1, Column: 1})
+		b, _ = t.CellAt(tabular.CellLocation{Row: 1, Column: 2})
+	} else {
+		c.Logf("t.AddRow(NewRow().Add(tmpl)); t.AddRow(NewRow().Add(tmpl))")
+		t.AddRow(tabular.NewRow().Add(tmpl))
+		t.AddRow(tabular.NewRow().Add(tmpl))
+		a, _ = t.CellAt(tabular.CellLocation{Row: 1, Column: 1})
+		b, _ = t.CellAt(tabular.CellLocation{Row: 2, Column: 1})
+	}
+	if a == nil || b == nil {
+		panic("harness: copies not found")
+	}
+	who[a], who[b] = "A", "B"
+	x.Transition(2 + k0)
+	nlate := 0
+	for i := 0; i < 3; i++ {
+		k := c.Choose(3)
+		if k == 0 {
+			break
+		}
+		target, tn := a, "A"
+		if k == 2 {
+			target, tn = b, "B"
+		}
+		name := fmt.Sprintf("on%s%d", tn, i)
+		c.Logf("t.RegisterPropertyCallback(copy %s, RENDER, ITSELF, %s)", tn, name)
+		if err := registerCB(t, target, 2, 0, &c13CopyRec{name, &log, who}); err != nil {
+			x.Fail("C13.refused", []string{"cell_copies"}, "registering on a live cell was refused: %v", err)
+		}
+		expect[name+"@"+tn] = 1
+		nlate++
+		x.Transition(1)
+	}
+	passes := 1 + c.Choose(2)
+	tags := []string{"cell_copies", fmt.Sprintf("callbacks_before_copy:%d", k0)}
+	if k0 > 0 && nlate > 0 {
+		tags = append(tags, "registration_on_copy_sharing_callback_list")
+	}
+	for p := 0; p < passes; p++ {
+		log = log[:0]
+		c.Logf("t.InvokeRenderCallbacks()")
+		t.InvokeRenderCallbacks()
+		x.Transition(1)
+		x.Clause("C13.once")
+		count := map[string]int{}
+		for _, e := range log {
+			count[e]++
+		}
+		for e, n := range expect {
+			if count[e] != n {
+				x.Fail("C13.once", tags, "pass %d: %s fired %d times, want %d; log %v (k0=%d callbacks registered before the cell was copied, then registrations on the live copies)", p+1, e, count[e], n, log, k0)
+				return
+			}
+		}
+		for e, n := range count {
+			if expect[e] == 0 {
+				x.Fail("C13.once", append(tags, "unexpected_invocation"), "pass %d: %s fired %d times but was never registered for that cell; log %v", p+1, e, n, log)
+				return
+			}
+		}
+	}
+	x.State(fmt.Sprint("copies", k0, sameRow, nlate))
+	if k0+nlate > 0 {
+		x.Nontrivial(fmt.Sprint(c.path))
+	}
 }
